@@ -105,3 +105,16 @@ Example C17_example_cleared_blocksize :
     (fold_left (fstep facade_state_writes) [FoInit CNone (CInt 512); FoMethod "read10"; FoCall CNone; FoSetBlocksize (CInt 0); FoMethod "inquiry"] []) =
   Some (CInt 0).
 Proof. vm_compute. reflexivity. Qed.
+
+(* PERSISTENT RESERVE IN through the facade: the method is REGENERATED as  look the operation code up; `if service_action ==
+   opcode.serviceaction.X: cmd = Cls(...) elif ... else: raise ValueError(...)`; execute; unmarshall; return  — the translator emits
+   AConstructBySA only for exactly that chain ending in `else: raise ValueError`, anything else (a table indexed by the value, a
+   dictionary lookup with a default, a different exception) is an AUnknownAction and fails this theorem.  So a value that is none of
+   the four service actions, of whatever type or sign, raises ValueError before a command exists, and nothing is executed. *)
+Theorem C17_prin_dispatch_is_a_closed_chain :
+  match f_acts F_persistentreservein with
+  | [ALookup "PERSISTENT_RESERVE_IN"; AConstructBySA bs; AExecute false; AUnmarshall _ _; AReturn] =>
+      map (fun b => (fst (fst b), snd (fst b))) bs
+  | _ => []
+  end = [("service_action", "READ_KEYS"); ("service_action", "READ_RESERVATION"); ("service_action", "REPORT_CAPABILITIES"); ("service_action", "READ_FULL_STATUS")].
+Proof. vm_compute. reflexivity. Qed.
